@@ -13,6 +13,7 @@ func init() {
 	commands["sqli-replay"] = cmdSQLiReplay
 	commands["sqli-api"] = cmdSQLiAPI
 	commands["sqli-modes"] = cmdSQLiModes
+	commands["sqli-lex"] = cmdSQLiLex
 }
 
 var allFlags = []int{9, 17, 10, 18, 12, 20}
@@ -463,6 +464,26 @@ func cmdSQLiModes(args []string) int {
 			out["lex"] = lex
 		}
 		writeJSON(w, out)
+	}
+	return 0
+}
+
+// cmdSQLiLex: vh sqli-lex <cases.ndjson> <out.ndjson>: {in, mode} -> lexer steps and tokens of the real lexer
+func cmdSQLiLex(args []string) int {
+	sc, cin := openIn(args[0])
+	defer cin()
+	w, done := openOut(args[1])
+	defer done()
+	for sc.Scan() {
+		var il inputLine
+		if err := json.Unmarshal(sc.Bytes(), &il); err != nil {
+			fatal(err)
+		}
+		fl := 9
+		if il.Mode != nil {
+			fl = *il.Mode
+		}
+		writeJSON(w, safeLex(i2b(il.In), fl))
 	}
 	return 0
 }
